@@ -41,7 +41,15 @@ def one(spec, hname, hlib, hbits, cname, kbits, salt, c, pw, explicit_limit=400,
         # the key is a function of (specifier, hash, salt, count, passphrase), not of what the object derived before
         try:
             s.derive_key('an earlier, different passphrase')
+            # ... nor of the parameters the object had when it last derived from the SAME passphrase (protect() re-parameterises
+            # the specifier of a key it has unlocked before)
+            s.salt = bytearray(bytes(salt)[::-1])
+            s.halg = HashAlgorithm.SHA1 if hname != 'SHA1' else HashAlgorithm.SHA256
+            s.count = (c + 17) % 256 if c < 100 else c
             s.derive_key(pw)
+            s.salt = bytearray(salt)
+            s.halg = getattr(HashAlgorithm, hname)
+            s.count = c
         except Exception:
             pass
     try:
